@@ -435,6 +435,7 @@ package profile
 //@   ensures noalias: result1 == nil ==> (forall j int :: 0 <= j && j < len(srcs) ==> result0.PeriodType != srcs[j].PeriodType)
 //@       && forall i int, j int, k int :: 0 <= i && i < len(result0.SampleType) && 0 <= j && j < len(srcs) && 0 <= k && k < len(srcs[j].SampleType)
 //@            ==> result0.SampleType[i] != srcs[j].SampleType[k]
+//@   ensures comments_once: result1 == nil ==> forall a int, b int :: 0 <= a && a < b && b < len(result0.Comments) ==> result0.Comments[a] != result0.Comments[b]
 //@   loop 1
 //@     invariant 0 <= $i && $i <= len(srcs) - 1
 //@     invariant forall j int :: 1 <= j && j < $i + 1 ==> sametypes(srcs[0], srcs[j])
@@ -446,8 +447,12 @@ package profile
 //@     invariant timeNanos >= 0 && (forall j int :: 0 <= j && j < $i && srcs[j].TimeNanos != 0 ==> timeNanos != 0 && timeNanos <= srcs[j].TimeNanos)
 //@     invariant timeNanos != 0 ==> exists j int :: 0 <= j && j < $i && timeNanos == srcs[j].TimeNanos
 //@     invariant forall n int :: n == $i ==> durationNanos == old(sumdur(srcs, n))
+//@     invariant comments_seen: seenComments != nil && forall a int :: 0 <= a && a < len(comments) ==> seenComments[comments[a]]
+//@     invariant comments_once: forall a int, b int :: 0 <= a && a < b && b < len(comments) ==> comments[a] != comments[b]
 //@   loop 3
 //@     invariant 0 <= $i && $i <= len(s.Comments)
+//@     invariant comments_seen: seenComments != nil && forall a int :: 0 <= a && a < len(comments) ==> seenComments[comments[a]]
+//@     invariant comments_once: forall a int, b int :: 0 <= a && a < b && b < len(comments) ==> comments[a] != comments[b]
 //@   loop 4
 //@     invariant 0 <= $i && $i <= len(srcs[0].SampleType)
 //@     invariant p != nil && fresh(p) && fresh(p.SampleType) && len(p.SampleType) == len(srcs[0].SampleType)
@@ -1229,6 +1234,13 @@ package profile
 //@     invariant mappings_ok: forall k mappingKey :: has(pm.mappings, k) ==> pm.mappings[k] != nil
 //@     invariant samples_untouched: forall k sampleKey :: has(pm.samples, k) == old(has(pm.samples, k)) && pm.samples[k] == old(pm.samples[k])
 //@     invariant list_untouched: len(pm.p.Sample) == old(len(pm.p.Sample))
+// the key is self-delimiting: every label key is followed by the number of its values, every numeric label key by the
+// number of its values and, after them, the number of its units (otherwise {a:[b,c,d]} and {a:[b], c:[d]} share a key)
+//@   loop 2
+//@     mustcall profileMerger.sampleKey$1 label_count: $arg0 == uint64(len(sample.Label[l])) when true
+//@   loop 4
+//@     mustcall profileMerger.sampleKey$1 num_count: $arg0 == uint64(len(sample.NumLabel[l])) when true
+//@     mustcall profileMerger.sampleKey$1 unit_count: $arg0 == uint64(len(sample.NumUnit[l])) when true
 
 // ---- C14: Go count profiles — one sample per record, in input order, with the record's count as its single value and one
 // location per address field; every address is moved back by one (64-bit exact) and filed under that adjusted address ----
